@@ -325,6 +325,9 @@ func (e *Encoder) niLeaves(st *State, ref *Term, t types.Type, path string, cfg 
 				if v.Base == v0.Base && v.Off == v0.Off && v.Len == v0.Len {
 					continue // never written by this function: not an output
 				}
+				if k == KString {
+					cls = "mem:str"
+				}
 				mem := e.get(st, cls, Arr(RefS, Arr(BV64, scalarSort(et))))
 				*out = append(*out, niLeaf{path: p, gopth: p, seq: true, isStr: k == KString, base: v.Base, off: v.Off, len: v.Len, mem: mem})
 				continue
